@@ -814,6 +814,17 @@ func (en *evalEnv) call(x *ECall) ev {
 			return ev{Ite(Le(a, b), a, b), nil}
 		}
 		return ev{Ite(Le(a, b), b, a), nil}
+	case "tolower", "toupper":
+		f := "str_" + x.Fun
+		if !e.declared[f] {
+			e.declared[f] = true
+			e.emit("(declare-fun %s (Int) Int)", f)
+		}
+		a, aok := arg(0).v.(*Term)
+		if !aok {
+			en.fail("%s(s): string expected", x.Fun)
+		}
+		return ev{App(SInt, f, a), types.Typ[types.String]}
 	case "contains", "hasprefix", "hassuffix", "equalfold":
 		// the library predicate of the same name applied to two strings (uninterpreted, see knownCall)
 		f := "str_" + x.Fun
@@ -1026,7 +1037,8 @@ func (e *Exec) callByContract(fr *Frame, st *State, x *ssa.Call, callee *ssa.Fun
 		if e.ghostOn {
 			var gks []string
 			for k := range st.heap {
-				if strings.HasPrefix(k, "L$") {
+				// the caller's own call / store counters are not touched by what the callee evaluates
+				if strings.HasPrefix(k, "L$") && !strings.HasPrefix(k, "L$ncall_") && !strings.HasPrefix(k, "L$nstore_") {
 					gks = append(gks, k)
 				}
 			}
@@ -1034,12 +1046,17 @@ func (e *Exec) callByContract(fr *Frame, st *State, x *ssa.Call, callee *ssa.Fun
 			for _, k := range gks {
 				st.heap[k] = e.fresh(st.heap[k].Sort, "g")
 			}
+			if pre.heap[gN] == nil || st.heap[gN] == nil {
+				// the function under contract keeps counters only, no evaluation trace
+				goto traceDone
+			}
 			// the trace only grows; earlier events are unchanged
 			e.assume(st.pc, Le(pre.heap[gN], st.heap[gN]))
 			for _, k := range []string{gEk, gEarr, gEslot, gEidx, gEobj, gEscope, gEres} {
 				e.emit("(assert (=> %s (forall ((k!t Int)) (! (=> (< k!t %s) (= (select %s k!t) (select %s k!t))) :pattern ((select %s k!t))))))",
 					st.pc.S, pre.heap[gN].S, st.heap[k].S, pre.heap[k].S, st.heap[k].S)
 			}
+		traceDone:
 		}
 	} else {
 		ms := e.P.ModSetOf(callee)
